@@ -65,7 +65,11 @@ pub fn run(k: &str, c: &Value) -> Value {
             let s2 = s.clone(); let in_iv = guard(move || ser(&s2.in_interval(engeom::common::Interval::new(x0, x1))));
             let s2 = s.clone(); let abs_s = guard(move || ser(&s2.abs()));
             let s2 = s.clone(); let dydx = guard(move || ser(&s2.dydx()));
-            json!({"removed": removed, "in_interval": in_iv, "abs": abs_s, "dydx": dydx,
+            let s2 = s.clone();
+            let extremes = guard(move || { let (gx, gy) = s2.global_maxima_xy(); let (mx, my) = s2.global_minima_xy();
+                json!({"x_min": hx(s2.x_min()), "x_max": hx(s2.x_max()), "y_min": hx(s2.y_min()), "y_max": hx(s2.y_max()), "gmax": [hx(gx), hx(gy)], "gmin": [hx(mx), hx(my)],
+                       "ordered": s2.is_ordered(), "npoints": s2.as_points().len(), "interval": [hx(s2.interval().min), hx(s2.interval().max)]}) });
+            json!({"removed": removed, "in_interval": in_iv, "abs": abs_s, "dydx": dydx, "extremes": extremes,
                    "interp": interp, "after": after, "scaled": scaled, "shifted": shifted, "between": between, "split": split,
                    "area": area, "split_areas": split_areas, "cross": cross, "resampled": res, "resampled_x": resx, "bounds_y0": bnds})
         }
